@@ -26,7 +26,7 @@ pub fn def() -> PropertyDef {
         replay_custom: no_custom,
         assumptions: &[
             "per frame: (hook log-F0 != no-data) <=> (voicing weight of the frame's state > threshold[1]); the weight is computed independently as the weighted sum of the per-voice public lookups (voice sets included); frame -> state mapping from the public duration estimator",
-            "thresholds include values exactly equal to a state's voicing weight (strict comparison)",
+            "thresholds include values exactly equal to a state's voicing weight (strict comparison), its two f64 neighbours and the weight -+ 1e-9",
             "independence: changing threshold[i] or GV weight[i] leaves the other streams' hook trajectories bitwise unchanged",
         ],
     }
@@ -37,6 +37,8 @@ pub struct Case {
     pub base: EngineCase,
     /// pick the F0 threshold equal to the voicing weight of state number `tie_state` (mod states)
     pub tie_state: Option<usize>,
+    /// 0: exactly the weight; 1 / 2: the next f64 below / above it; 3 / 4: weight -+ 1e-9
+    pub tie_offset: usize,
     pub higher: f64,
     pub other_stream: usize,
     pub other_threshold: f64,
@@ -73,11 +75,12 @@ impl Prop for Voicing {
     }
     fn decode(&self, t: &mut Tape, _: Tier) -> Case {
         let base = gen_engine_case(t, 12, 15, false, GenOpts::default());
-        let tie_state = if t.chance(0.3) { Some(t.below(1000)) } else { None };
+        let tie_state = if t.chance(0.4) { Some(t.below(1000)) } else { None };
+        let tie_offset = t.below(5);
         let higher = t.unit();
         let nstreams = base.cond.gv_weight.len();
         let other_stream = if t.chance(0.5) { 0 } else { nstreams - 1 };
-        Case { base, tie_state, higher, other_stream, other_threshold: t.unit(), other_gv_weight: t.uniform(0.0, 2.0) }
+        Case { base, tie_state, tie_offset, higher, other_stream, other_threshold: t.unit(), other_gv_weight: t.uniform(0.0, 2.0) }
     }
     fn check(&self, c: &Case) -> Result<Report, Failure> {
         let (mut engine, _info) = build_engine(&c.base.voice)?;
@@ -112,7 +115,17 @@ impl Prop for Voicing {
         let is_set = nvoices > 1;
         if let Some(k) = c.tie_state {
             if !msd.is_empty() && !is_set {
-                engine.condition.set_msd_threshold(1, msd[k % msd.len()]);
+                let m = msd[k % msd.len()];
+                let thr = match c.tie_offset {
+                    0 => m,
+                    1 => f64::from_bits(m.to_bits().wrapping_sub(1)),
+                    2 => f64::from_bits(m.to_bits() + 1),
+                    3 => m - 1e-9,
+                    _ => m + 1e-9,
+                };
+                if m > 0.0 && m.is_finite() {
+                    engine.condition.set_msd_threshold(1, thr);
+                }
             }
         }
         let thr = engine.condition.get_msd_threshold(1);
